@@ -45,7 +45,7 @@ def rules(ctx, db):
     if has_poll(db):
         ctx.rule("R8", "DIR", "a polling file/pipe op waits for the readiness its system call needs (Readable for read, Writable for write)")
         n8 = oc.rule_interest(ctx, db, "R8", want_socket=False)
-        ctx.floor("R8", "polling file/pipe ops with a readiness interest", n8, 6)
+        ctx.floor("R8", "polling file/pipe ops with a readiness interest", n8, 5)
 
 
 def check(tier):
